@@ -39,12 +39,25 @@ def match_finding(sig: dict, finding: dict) -> bool:
     return True
 
 
+def safe_replay(mod, case):  # type: ignore[no-untyped-def]
+    """mod.replay(case); an exception raised by library code through it is the violation (same rule as core.hyp_explore)."""
+    from vf.core import library_raise_signature
+
+    try:
+        return mod.replay(case)
+    except Exception as e:  # noqa: BLE001
+        sig = library_raise_signature(e)
+        if sig is None:
+            raise
+        return [(sig, f"{type(e).__name__}: {e}"[:400])]
+
+
 def run_replay_tier(mod, pid: str, col: Collector) -> int:
     n = 0
     for p in sorted(glob.glob(os.path.join(VERIF_DIR, "replays", f"{pid}-*.json"))):
         with open(p) as f:
             rec = json.load(f)
-        for sig, detail in mod.replay(rec["case"]):
+        for sig, detail in safe_replay(mod, rec["case"]):
             col.violation(sig, rec["case"], f"[replay {os.path.basename(p)}] {detail}")
         n += 1
     return n
@@ -71,7 +84,7 @@ def main(argv: list[str] | None = None) -> int:
         try:
             with open(args.replay) as f:
                 rec = json.load(f)
-            res = mod.replay(rec["case"])
+            res = safe_replay(mod, rec["case"])
         except Exception:  # noqa: BLE001
             traceback.print_exc()
             print(f"HARNESS-ERROR property={pid} replay failed to run", flush=True)
